@@ -16,15 +16,15 @@ Tie to the code, re-checked on every run of `bin/check C05`:
  * C: a no-libc probe runs the real code under `strace -f`; every observed history must be accepted by
    `stepI` (driver `drv_c05`), which also predicts each join result.
 
-Environment assumptions (part of `Cfg.Good`, exercised by the probe, not provable here):
- * the kernel's CLONE_CHILD_CLEARTID write + FUTEX_WAKE at thread exit is the synchronisation between the
-   exited thread and whoever observes the 0: a waiter woken by it, a FUTEX_WAIT refused (EAGAIN) because of
-   it, or (`loadSync`) the fast-path `load(Relaxed)` that reads it — the last holds on x86-64 (TSO) and
-   whenever the observation goes through the system call; the language-level memory model alone does not
-   grant it to a relaxed load (`relaxed_fast_path_needs_hw_ordering` below shows the model racing without it);
- * `spurious = false`: FUTEX_WAIT returns 0 only after a wake on that word, and nothing but the kernel's
-   clear-tid wake targets a thread's futex word (`spurious_wake_breaks_join` shows why this is needed:
-   `futex_wait_fast` returns on Ok(()) without re-reading the word).
+Environment: the kernel's CLONE_CHILD_CLEARTID write + FUTEX_WAKE at thread exit is the synchronisation between
+the exited thread and whoever observes the 0 (a waiter woken by it, a FUTEX_WAIT refused with EAGAIN because of
+it, the `Acquire` load of `wait_for_exit` that reads it); that the kernel's write is a release of everything the
+thread did is an assumption, exercised by the probe.  Nothing else is assumed of the environment for the repaired
+code: the theorems hold for `spurious = true` (a FUTEX_WAIT may return 0 without a wake on the word, which the
+futex contract allows — e.g. the late wake of a previous thread whose block had the same address) and for
+`loadSync = false`.  The code before commit (fix: re-check loop) called `futex_wait_fast` once and relied on both:
+`spurious_wake_breaks_join` and `relaxed_fast_path_needs_hw_ordering` are the model witnesses on that code, the
+first one replayed on the implementation with `strace -e inject=futex:retval=0`.
 -/
 import TinyVerif.Model.Thread
 import TinyVerif.Proofs.ThreadStep
@@ -65,8 +65,10 @@ def genShapeOk : Bool :=
   dropOps == ["cas", "is_err", "wait", "drop_value", "tsm_dealloc"] &&
   -- x86-64 trampoline: clone (56), then in the child munmap (11) and exit (60)
   cloneAsmSyscalls == [56, 11, 60] &&
-  joinSites == [⟨"join", "futex_wait_fast", "futex", ["UNFINISHED"], []⟩] &&
-  dropSites == [casSite "drop", ⟨"drop", "futex_wait_fast", "futex", ["UNFINISHED"], []⟩] &&
+  -- `wait_for_exit`: while futex.load(Acquire) == UNFINISHED { futex_wait_fast(futex, UNFINISHED) }
+  waitSites == [⟨"wait_for_exit", "load", "futex", [], [.acquire]⟩,
+                ⟨"wait_for_exit", "futex_wait_fast", "futex", ["UNFINISHED"], []⟩] &&
+  joinSites == [] && dropSites == [casSite "drop"] &&
   spawnSites == [casSite "spawn"] && panicSites == [casSite "on_panic"] &&
   unfinished == some 1 &&
   -- join / drop wait with the same (shared) key kind the kernel's clear-tid wake uses
@@ -74,11 +76,12 @@ def genShapeOk : Bool :=
 
 theorem gen_shape_ok : genShapeOk = true := by decide
 
-/-- the model's parameters as derived from the current source; the two environment assumptions are fixed here -/
+/-- the model's parameters as derived from the current source; the environment may wake waiters spuriously and
+gives no ordering to relaxed loads -/
 def genCfg : Cfg :=
   { checkClone := Gen.Thread.checkClone, mmapCleanup := Gen.Thread.mmapCleanup, initWord := Gen.Thread.initWord,
     joinExpect := Gen.Thread.joinExpect, dropExpect := Gen.Thread.dropExpect, setTidRet := Gen.Thread.setTidRet,
-    setTidPanic := Gen.Thread.setTidPanic, loadSync := true, spurious := false,
+    setTidPanic := Gen.Thread.setTidPanic, recheck := Gen.Thread.recheck, loadSync := false, spurious := true,
     dropValH := Gen.Thread.dropValH, dropValT := Gen.Thread.dropValT }
 
 theorem gen_cfg_good : genCfg.Good := by decide
@@ -192,7 +195,7 @@ theorem join_wait_has_waker (c : Cfg) (hc : c.Good) (s : St) (h : Reachable c s)
   have hns : (s.inst i).t ≠ .notStarted := by
     intro h0; have := inv.started.mp h0; rw [hsp] at this; cases this
   refine ⟨hns, hk, ?_⟩
-  obtain ⟨_, _, _, _, _, c6, c7, _, _, _, _⟩ := hc
+  obtain ⟨_, _, _, _, _, c6, c7, _, _, _⟩ := hc
   cases ht : (s.inst i).t <;> simp_all [nextTK, stepI]
   all_goals (first | exact ⟨_, rfl⟩ | ((repeat' split) <;> exact ⟨_, rfl⟩))
 
@@ -294,8 +297,8 @@ theorem mmap_failure_is_error (c : Cfg) (hc : c.Good) (s : St) (h : Reachable c 
 
 /-! ## the defect of the code as it was (DESIGN §4 #20, #21), on the model of that code -/
 
-/-- spawn.rs before commit ad01f67: `__clone`'s result ignored, `mmap(..)?` without clean-up -/
-def origCfg : Cfg := { genCfg with checkClone := false, mmapCleanup := false }
+/-- spawn.rs before commit ad01f67: `__clone`'s result ignored, `mmap(..)?` without clean-up, one-shot wait -/
+def origCfg : Cfg := { genCfg with checkClone := false, mmapCleanup := false, recheck := false, spurious := false, loadSync := true }
 
 def cloneFailTrace : List (Nat × Ev) :=
   [(0, .hAllocTsm), (0, .hBox), (0, .hMmap true), (0, .hAllocTls), (0, .hClone false),
@@ -331,7 +334,10 @@ theorem spawn_mmap_fail_leak_counterexample :
     (run origCfg St.init mmapFailTrace).map (fun s => ((s.inst 0).h, liveHeap (s.inst 0))) = some (.failed false, 2) := by
   decide
 
-/-! ## the environment assumptions are necessary -/
+/-! ## what the one-shot wait of the code before the repair depended on -/
+
+/-- the code before the re-check loop, in an environment that behaves as the futex contract allows -/
+def oneShotCfg : Cfg := { genCfg with recheck := false }
 
 def fastPathTrace : List (Nat × Ev) :=
   [(0, .hAllocTsm), (0, .hBox), (0, .hMmap true), (0, .hAllocTls), (0, .hClone true),
@@ -341,20 +347,30 @@ def fastPathTrace : List (Nat × Ev) :=
 def racedOf (c : Cfg) (tr : List (Nat × Ev)) : Option (Bool × Option (Option Nat)) :=
   (run c St.init tr).map (fun s => ((s.inst 0).raced, (s.inst 0).joinRes))
 
-/-- without hardware ordering for the fast-path `load(Relaxed)` the slot read is not ordered after the slot write -/
-theorem relaxed_fast_path_needs_hw_ordering :
-    racedOf { genCfg with loadSync := false } fastPathTrace = some (true, some (some 7)) := by decide
-theorem fast_path_ok_under_assumption : racedOf genCfg fastPathTrace = some (false, some (some 7)) := by decide
+/-- with the one-shot `load(Relaxed)` the slot read was ordered after the slot write only by the hardware (TSO) -/
+theorem relaxed_fast_path_needs_hw_ordering : racedOf oneShotCfg fastPathTrace = some (true, some (some 7)) := by decide
+/-- the `Acquire` re-check of the repaired code orders it in the language-level model -/
+theorem acquire_recheck_orders_fast_path : racedOf genCfg fastPathTrace = some (false, some (some 7)) := by decide
 
 def spuriousTrace : List (Nat × Ev) :=
   [(0, .hAllocTsm), (0, .hBox), (0, .hMmap true), (0, .hAllocTls), (0, .hClone true),
    (0, .hJoin), (0, .hLoad 1), (0, .hFwait true), (0, .hSpur), (0, .hReadSlot)]
 
-/-- `futex_wait_fast` returns on Ok(()) without re-reading the word: a wake that is not the kernel's would let
-join read the slot of a running thread (returns None for a closure that has not finished) -/
-theorem spurious_wake_breaks_join :
-    racedOf { genCfg with spurious := true } spuriousTrace = some (true, some none) := by decide
-theorem no_spurious_wake_in_good_env : racedOf genCfg spuriousTrace = none := by decide
+/-- the same spurious wake on the repaired code: H goes back to the load, sees 1, waits again -/
+def spuriousTraceFixed : List (Nat × Ev) :=
+  [(0, .hAllocTsm), (0, .hBox), (0, .hMmap true), (0, .hAllocTls), (0, .hClone true),
+   (0, .hJoin), (0, .hLoad 1), (0, .hFwait true), (0, .hSpur), (0, .hLoad 1), (0, .hFwait true),
+   (0, .tRet 9), (0, .tWrite), (0, .tCas true), (0, .tFreeTls), (0, .tFreeBox), (0, .tMunmap), (0, .tExit), (0, .kExit),
+   (0, .hLoad 0), (0, .hReadSlot)]
+
+/-- **spurious_wake_breaks_join** (the code before the repair): `futex_wait_fast` returns on Ok(()) without
+re-reading the word, so a wake that is not the kernel's clear-tid wake lets join read the slot of a thread that is
+still running — it returns None for a closure that has not finished, and then frees the block under the thread -/
+theorem spurious_wake_breaks_join : racedOf oneShotCfg spuriousTrace = some (true, some none) := by decide
+/-- the repaired code does not take that step (after the spurious return it is back at the load) ... -/
+theorem recheck_refuses_early_read : racedOf genCfg spuriousTrace = none := by decide
+/-- ... and completes the join correctly once the thread has exited -/
+theorem recheck_survives_spurious_wake : racedOf genCfg spuriousTraceFixed = some (false, some (some 9)) := by decide
 
 /-! ## non-vacuity -/
 
@@ -363,7 +379,7 @@ def fullJoinTrace : List (Nat × Ev) :=
    (1, .hAllocTsm), (0, .hJoin), (0, .hLoad 1), (0, .hFwait true),
    (1, .hBox), (1, .hMmap true), (1, .hAllocTls), (1, .hClone true), (1, .tPanic),
    (0, .tRet 42), (0, .tWrite), (0, .tCas true), (0, .tFreeTls), (0, .tFreeBox), (0, .tMunmap), (0, .tExit), (0, .kExit),
-   (0, .hReadSlot), (0, .hFreeTsm),
+   (0, .hLoad 0), (0, .hReadSlot), (0, .hFreeTsm),
    (1, .hDrop), (1, .hCas true), (1, .tPanicRead), (1, .tFreeTls), (1, .tCas false), (1, .tSetTid), (1, .tFreeTsm),
    (1, .tMunmap), (1, .tExit), (1, .kExit)]
 
